@@ -5,8 +5,10 @@
 (*                                                                         *)
 (* cfg = [kinds, limit, size, pay, static]                                 *)
 (*   kinds[k]  "direct" (Input), "pass" (Input behind a pass-through       *)
-(*             adapter: the end point is the input), "buffer" (push-based  *)
-(*             adapter: registers itself and pulls at every notification)  *)
+(*             adapter: the end point is the input), "shared" (a further   *)
+(*             Input on the previous end point's adapter), "buffer" (push- *)
+(*             based adapter: registers itself, pulls at every             *)
+(*             notification)                                               *)
 (*   limit     memory limit in bytes or None, size bytes per data set      *)
 (* st = [pubs, full, last, ram, ctr, files, fin]                           *)
 (*   pubs      retained entries [t, id, sp]  (sp: spilled to a file)       *)
